@@ -120,6 +120,18 @@ def ob_django(w, P):
     if tcls == 'neg':
         tval = -tval
     targ = {'default': DEFAULT_TIMEOUT, 'none': None, 'zero': 0}.get(tcls, tval)
+    if P.get('busy'):
+        # the shard's write lock is held by someone else for the first k attempts: DjangoCache writes wait (retry=True is their
+        # default) and then obey the contract in full
+        kk = w.int('busy_k', 1, 2)
+        cnt = [0]
+
+        def hook(con):
+            cnt[0] += 1
+            flag('lock_busy')
+            return bool(kk >= cnt[0])
+        for sh in s.fc._shards:
+            w.set_busy_hook(sh, hook)
     # no expiry ties in the pre-state (the contract says nothing about the instant itself)
     w.start_events()
     k0 = len(w.times)
@@ -316,6 +328,63 @@ def ob_django(w, P):
     raise ValueError(op)
 
 
+@directive_aware
+def ob_django_busy(w, P):
+    """every DjangoCache write / read while the write lock of the shard is held by someone else for the whole call: the call
+    never raises (the sharded cache underneath reports failure instead), returns the documented failure value and
+    changes nothing"""
+    s = DScn(w, P)
+    dc = s.dc
+    op = P['op']
+    name, ver = 'a', 1
+    val = w.int('val', -2 ** 40, 2 ** 40)
+    attempts = [0]
+
+    def hook(con):
+        attempts[0] += 1
+        flag('lock_busy')
+        return True
+    for sh in s.fc._shards:
+        w.set_busy_hook(sh, hook)
+    w.start_events()
+    T0 = s.T0
+    cl = []
+    try:
+        if op == 'set':
+            ret, exp = dc.set(name, val, 60, version=ver, retry=False), False
+        elif op == 'add':
+            ret, exp = dc.add(name, val, 60, version=ver, retry=False), False
+        elif op == 'touch':
+            ret, exp = dc.touch(name, 60, version=ver, retry=False), False
+        elif op == 'delete':
+            ret, exp = dc.delete(name, version=ver, retry=False), False
+        elif op == 'pop':
+            ret, exp = dc.pop(name, -7, version=ver, retry=False), -7
+        elif op == 'incr':
+            ret, exp = dc.incr(name, 1, version=ver, retry=False), None
+        elif op == 'decr':
+            ret, exp = dc.decr(name, 1, version=ver, retry=False), None
+        else:
+            raise ValueError(op)
+        raised = None
+    except Exception as e:
+        if type(e).__name__ in ('HarnessBug',):
+            raise
+        raised, ret, exp = e, None, None
+    w.stop_events()
+    T1 = s.snapshot()
+    cl.append(('C19,C14', 'a DjangoCache call that cannot get the write lock does not raise (%s)' % (type(raised).__name__ if raised else 'returned'), raised is None))
+    if raised is None:
+        if exp is None or isinstance(exp, (bool, list)):
+            okr = (ret is exp) if not isinstance(exp, list) else (ret == exp)
+        else:
+            okr = EqR(zv(ret), exp) if is_num_like(ret) else False
+        cl.append(('C19,C14', 'it reports the failure the way the method documents (%r)' % (exp,), okr))
+    cl.append(('C19,C14,C08', 'and changes nothing', django_table_eq(T0, T1, w.times[-1] if w.times else 0)))
+    cl.append(('C19,C14', 'the lock really was busy', attempts[0] > 0))
+    flag('nontrivial')
+    return cl
+
 OPS = ['set', 'add', 'get', 'has_key', 'touch', 'delete', 'pop', 'incr', 'decr', 'get_many', 'set_many', 'delete_many', 'get_or_set', 'incr_version', 'decr_version', 'clear',
        'backend_timeout']
 
@@ -327,4 +396,8 @@ def jobs(tier):
     for op in OPS:
         for shards in ((1,) if tier == 'quick' else (1, 2)):
             out.append(dict(id='django.%s.shards=%d' % (op, shards), func='ob_django', params=dict(op=op, shards=shards), tags=['C19', 'C08'], functions=F, weight=5))
+    for op in ('set', 'add', 'touch', 'delete', 'pop', 'incr', 'decr'):
+        out.append(dict(id='django.busy.noretry.%s' % op, func='ob_django_busy', params=dict(op=op, shards=1), tags=['C19', 'C14'], functions=F, weight=3, must_reach=['lock_busy']))
+    for op in ('set', 'add', 'touch', 'delete', 'pop', 'incr', 'set_many', 'delete_many', 'get_or_set', 'incr_version', 'clear'):
+        out.append(dict(id='django.busy.wait.%s' % op, func='ob_django', params=dict(op=op, shards=1, busy=1), tags=['C19', 'C14'], functions=F, weight=8, must_reach=['lock_busy']))
     return out
